@@ -14,6 +14,9 @@ P = {
  "C03": dict(level="proof", tech="abstract interpretation with bit provenance of all 90 instruction methods in 16 width/target/listing cells; comparison with the independently authored opcode matrix ref/isa65816.json",
    text="Each emitting method is interpreted with every operand bit symbolic, so the verdict on opcode byte, little-endian operand bytes, length, address/n advance and width guard holds for every operand value and every tracked-width state; the opcode/mode/length oracle is an independent transcription of the WDC opcode matrix. All 90 methods x 16 cells are covered, nothing is sampled.",
    note="Trusted: go/ssa, absint transfer functions, ref/isa65816.json, the method-name grammar of DESIGN appendix B, Go's copy builtin. 'Decodes back with the library's own CPU' is covered by table agreement (cpu-agree) plus C01/decode and C07/length.", ref="4 C03"),
+ "C08": dict(level="proof", tech="interval abstract interpretation of Step in 12288 opcode x M,X,E x interrupt cells per package; bus-access events carry address and dispatch-index intervals; liveness of panic/fatal/index-range sites",
+   text="Sound interval analysis of every bus access of every Step cell (all other state symbolic) in both interpreters proves address < 2^24 and dispatch index < 2^20, and that no panic, log.Fatal or possibly-out-of-range array index is live when the whole bus is mapped; the cells cover all opcodes and all register/memory valuations, nothing is sampled.",
+   note="Trusted: go/ssa, absint interval transfer functions; assumes flag bytes hold 0/1 (obligation C01/flags01), memory back ends and user callbacks are outside the boundary, whole bus mapped (nil-backend arms pruned).", ref="4 C08"),
 }
 reasons_pending = "no check is registered for this property at this commit (machinery not built yet); see DESIGN.md section 4 for the planned static rules"
 
